@@ -600,9 +600,93 @@ def cell_boundary(rng, n, m, tri):
     return [[a, b] for (a, b), k in sorted(cnt.items()) if k % 2 == 1]
 
 
+def gen_notched(rng):
+    """A big ring B with wedge-shaped notches and extra nodes on its sides, small rings touching B from the outside in
+    two or more of those nodes (inside a notch at its apex / outside a plain node), and holes at many positions inside
+    B: B has to be put together from several partial rings (join_forward/join_backward branches of merge_two_rings)
+    and the holes have to be classified against it."""
+    W = 100
+    sides = []      # per side: list of (t, depth) events; depth > 0 = notch apex pushed inwards
+    special = []    # (node, outward direction, is_notch)
+    for side in range(4):
+        ev = []
+        if side == 0 or rng.chance(1, 6):
+            n = (2 if side == 0 else 1) + rng.below(2)
+            ts = sorted(set(15 + 10 * rng.below(8) for _ in range(n)))
+            for t in ts:
+                ev.append((t, (10 + 10 * rng.below(5)) if rng.chance(1, 2) else 0))
+        sides.append(ev)
+
+    def pt(side, t, d):
+        # side 0: right (x=W, t=y upwards), 1: top (t = W-x), 2: left (t = W-y), 3: bottom (t = x)
+        if side == 0:
+            return (W - d, t)
+        if side == 1:
+            return (W - t, W - d)
+        if side == 2:
+            return (d, W - t)
+        return (t, d)
+    outward = [(1, 0), (0, 1), (-1, 0), (0, -1)]
+    along = [(0, 1), (-1, 0), (0, -1), (1, 0)]
+    corners = [(W, 0), (W, W), (0, W), (0, 0)]   # start corner of each side
+    B = []
+    for side in range(4):
+        B.append(corners[side])
+        for (t, d) in sides[side]:
+            if d > 0:
+                a = 4 + rng.below(3)
+                B.append(pt(side, t - a, 0))
+                B.append(pt(side, t, d))
+                B.append(pt(side, t + a, 0))
+                special.append((pt(side, t, d), side, d, a))
+            else:
+                B.append(pt(side, t, 0))
+                special.append((pt(side, t, 0), side, 0, 0))
+    B.append(B[0])
+    rings = [B]
+    ntouch = 0
+    for (node, side, d, a) in special:
+        if not rng.chance(4, 5):
+            continue
+        ox, oy = outward[side]
+        ax, ay = along[side]
+        if d > 0:
+            # triangle inside the notch: from the apex towards the opening
+            L = max(2, d * 3 // 4)
+            h = 1 if a * 3 // 4 < 3 else 1 + rng.below(2)
+            tri = [node, (node[0] + ox * L + ax * h, node[1] + oy * L + ay * h), (node[0] + ox * L - ax * h, node[1] + oy * L - ay * h), node]
+        else:
+            L = 10 + rng.below(25)
+            h = 3 + rng.below(4)
+            tri = [node, (node[0] + ox * L + ax * h, node[1] + oy * L + ay * h), (node[0] + ox * L - ax * h, node[1] + oy * L - ay * h), node]
+        rings.append(tri)
+        ntouch += 1
+    if not valid_ringset(rings):
+        return None
+    for _ in range(2 + rng.below(4)):
+        for _try in range(6):
+            sz = 3 + rng.below(10)
+            x = 2 + rng.below(W - sz - 3)
+            y = 2 + rng.below(W - sz - 3)
+            hole = rect_ring(x, y, x + sz, y + sz) if rng.chance(2, 3) else [(x, y), (x + sz, y + sz // 2), (x + sz // 2, y + sz), (x, y)]
+            if valid_ringset(rings + [hole]) and side_of(hole, B) is True and all(side_of(hole, r) is False for r in rings[1:]):
+                rings.append(hole)
+                break
+    if rng.chance(1, 2):
+        rings = [[(p[1], p[0]) for p in r] for r in rings]
+    return rings
+
+
 def gen_valid_rings(rng, quick):
     """one random valid multipolygon (list of closed rings) + family name"""
-    f = rng.below(36)
+    f = rng.below(44)
+    if f >= 36:
+        rings = gen_notched(rng)
+        if rings is None:
+            return None, 'notched'
+        if rng.chance(1, 2):
+            rings = affine(rng, rings, big=rng.chance(1, 3))
+        return rings, 'notched'
     if f >= 34:
         # a vertex of one outer ring a tiny fraction of a unit below the long, nearly horizontal bottom edge of another
         # outer ring that has a hole right above it; everything near the corner of the +-2^29 square
@@ -1465,6 +1549,15 @@ def gen_cases(ctx, quick):
                     rs[i][-1] = q
                 sg = [s for r in rs for s in ring_segs(r) if s[0] != s[1]]
                 cases.append(make_case(rng, name + '-node-moved', cut_into_ways(rng, sg)))
+    # a dedicated block of notched rings touched in two or more nodes with holes inside (rings that have to be joined
+    # from partial rings; holes classified against them), mostly untransformed, some mirrored / sheared
+    for _ in range(160 if quick else 6000):
+        rings = gen_notched(rng)
+        if rings is None:
+            continue
+        if rng.chance(1, 3):
+            rings = affine(rng, rings, big=rng.chance(1, 4))
+        add_group('notched', rings, 1 if rng.chance(1, 3) else 0)
     # random closed-walk soups on tiny grids: everything is decided by the oracle
     for _ in range(220 if quick else 40000):
         g = rng.choice([3, 3, 4, 5])
